@@ -2,6 +2,7 @@
 for harness/C15.cpp (modes 2 and 3); modes 1 and 4 enumerate at run time."""
 
 ALPHA = {10: '01459', 16: '0178fF', 8: '0347', 2: '01'}
+ALPHA_SHORT_THOROUGH = {10: '0123456789', 16: '01789aAfF', 8: '01234567', 2: '01'}  # harness: BaseSpec::alphabet_short
 PREFIX = {10: [''], 16: ['0x', '0X'], 8: ['0'], 2: ['0b', '0B']}
 STRIDE = {10: 18, 16: 15, 8: 21, 2: 63}
 INTMAX_BITS = 127  # cnl::intmax_t is __int128 under gnu++20
@@ -318,14 +319,16 @@ def plan(tier):
     ntok = sum(len(v) for v in lit.values())
     return dict(
         units=units,
-        rule='parse: state = (T, token) for every token [+-]? prefix digit (digit | \' digit)* with a body of at most %d characters over the reduced digit alphabets, '
-             'and long tokens of every digit count up to the widest T (+2) x first x fill x last digit x separator layout x sign x zero padding; '
+        rule='parse: state = (T, token) for every token [+-]? prefix digit (digit | \' digit)* with a body of at most %d characters over the stated digit alphabets, '
+             'and long tokens of every digit count up to the widest T (+2) x (first x fill x last digit | the alphabet in rotation from every offset) x separator layout x sign x zero padding; '
              'literals: state = generated token x {_c, _cnl, _cnl2, _wide} (%d tokens, every third negated); deduction: state = (factory, constant V) for %d generated constants '
              'and (factory, source type, value) over the boundary lattice of every built-in integer type; '
              'non-trivial = token has a sign, a separator or more than one chunk / digit (parse, literals), V is negative, has trailing zero bits or is wider than int (deduction)'
              % (6 if t else 5, ntok, len(cl)),
-        bound=dict(parse_types=['i32 (g++ only)', 'i64', 'u64', 'i128', 'u128', 'wide_integer<128>', 'wide_integer<200>', 'wide_integer<512>', 'wide_integer<200,unsigned>'],
-                   alphabets={str(k): v for k, v in ALPHA.items()}, short_body_len=6 if t else 5,
+        bound=dict(parse_types=['i64', 'u64', 'i128', 'u128', 'wide_integer<128>', 'wide_integer<200>', 'wide_integer<512>', 'wide_integer<200,unsigned>'],
+                   alphabets_long_tokens={str(k): v for k, v in ALPHA.items()},
+                   alphabets_short_tokens={str(k): v for k, v in (ALPHA_SHORT_THOROUGH if t else ALPHA).items()}, short_body_len=6 if t else 5,
+                   udl_descale='I.F, I from 20 boundary integers, F every string of 1..3 digits over 0125, radix 10 and 2',
                    literal_tokens={k: len(v) for k, v in lit.items()}, constants=len(cl),
                    factories=['make_elastic_integer', 'make_elastic_scaled_integer', 'make_static_integer', 'make_static_number', 'make_scaled_integer',
                               'elastic_integer{} / scaled_integer{} (g++ only: alias CTAD)'],
